@@ -433,6 +433,14 @@ namespace Pistache::Http::Experimental
                 auto timerIt = timeouts.find(fd);
                 if (timerIt != std::end(timeouts))
                 {
+                    // The event may be stale: collected before the response arrived in the
+                    // same batch of events, which disarmed the timer and possibly handed the
+                    // connection, or the timer, over to the next request. Only an expiration
+                    // that can still be read is a time-out of the request now in flight.
+                    uint64_t expirations = 0;
+                    if (::read(fd, &expirations, sizeof expirations) != static_cast<ssize_t>(sizeof expirations))
+                        return;
+
                     connection = timerIt->second.lock();
                     if (connection)
                         timeouts.erase(timerIt);
